@@ -37,7 +37,7 @@ class Recorder:
 
 
 def plan(tier, seed):
-    n_max, k = (4, 2) if tier == "quick" else (5, 3)
+    n_max, k = (5, 2) if tier == "quick" else (5, 3)
     namings = ["identity", "adversarial"] + (["unicode"] if tier == "thorough" else [])
     shards = []
     for n in range(2, n_max + 1):
@@ -61,13 +61,14 @@ def one_call(ev, ns, aliases, spacing, extra, rec):
     return ("OK", list(rec.calls))
 
 
-def check(ns, I, aliases, spacing, extra, res):
-    """Returns a violation tuple or None."""
+def check(ns, I, aliases, spacing, extra, res, ev=None):
+    """Returns a violation tuple or None.  ev: evaluable to (re-)use; None = a fresh one."""
     rec = Recorder()
     old = nxg.draw_networkx
     nxg.draw_networkx = rec
     try:
-        ev = arch(ns, I)
+        if ev is None:
+            ev = arch(ns, I)
         out = one_call(ev, ns, aliases, spacing, extra, rec)
     finally:
         nxg.draw_networkx = old
@@ -132,18 +133,33 @@ def run_shard(shard, tier, seed):
     res.states += 1
     extras = [{}, {"node_size": 123}, {"with_labels": False, "ax": "AXIS"}]
     cases = [(None, None)]
+    pool = ALIAS_POOL + [n for n in ns[:2]]  # alias strings that are themselves module names
     for k in range(0, shard["k"] + 1):
         for keys in itertools.combinations(ns, k):
-            for vals in itertools.product(ALIAS_POOL, repeat=k):
+            for vals in itertools.product(pool, repeat=k):
                 cases.append((dict(zip(keys, vals)), None))
+    # every call is made twice: on one evaluable shared by all calls of this shard (so that state
+    # kept between calls is exercised) and, if that disagrees with the model, on a fresh one
+    shared = arch(ns, I)
+    history = []
     for aliases, _ in cases:
         for spacing in (None, 0.5):
             for extra in extras:
                 if spacing is not None and extra and aliases and len(aliases) > 1:
                     continue  # keyword pass-through is independent of the alias map size
-                v = check(ns, I, aliases, spacing, extra, res)
+                v = check(ns, I, aliases, spacing, extra, res, ev=shared)
+                call_rec = {"aliases": aliases, "spacing": spacing, "extra": extra}
                 if v:
-                    res.violation(v[0], {"modules": ns, "imports": I, "aliases": aliases, "spacing": spacing, "extra": extra}, v[1], v[2])
+                    case = {"modules": ns, "imports": I, "aliases": aliases, "spacing": spacing, "extra": extra}
+                    if check(ns, I, aliases, spacing, extra, None) is None:
+                        # only after earlier calls on the same evaluable: keep the shortest suffix that reproduces
+                        for n_prev in (1, 2, len(history)):
+                            case["history"] = history[-n_prev:] if n_prev else []
+                            if _check_case(case):
+                                break
+                        v = ("label-depends-on-earlier-visualize-calls:" + v[0], v[1], v[2])
+                    res.violation(v[0], case, v[1], v[2])
+                history.append(call_rec)
     # unknown alias keys
     for bad in [ns[-1] + "x", ns[-1][:-1], "zzz", ns[-1] + ".q"]:
         if bad in ns:
@@ -162,11 +178,20 @@ def _tuplify(t):
 
 def _check_case(case):
     I = [tuple(e) for e in case["imports"]]
-    return check(case["modules"], I, case["aliases"], case["spacing"], case["extra"], None)
+    ev = None
+    if case.get("history"):
+        ev = arch(case["modules"], I)
+        for h in case["history"]:
+            check(case["modules"], I, h["aliases"], h["spacing"], h["extra"], None, ev=ev)
+    return check(case["modules"], I, case["aliases"], case["spacing"], case["extra"], None, ev=ev)
 
 
 def minimise(v):
     case = dict(v["case"])
+    if case.get("history"):
+        v = dict(v)
+        v["signature"] = f"{v['kind']}:history{len(case['history'])}"
+        return v
     if case["aliases"]:
         for k in list(case["aliases"]):
             trial = dict(case, aliases={a: b for a, b in case["aliases"].items() if a != k})
@@ -182,5 +207,5 @@ def minimise(v):
 def replay(rec):
     r = _check_case(rec["case"])
     if r:
-        return [{"kind": r[0], "case": rec["case"], "expected": r[1], "observed": r[2]}]
+        return [{"kind": rec.get("kind", r[0]), "case": rec["case"], "expected": r[1], "observed": r[2]}]
     return []
